@@ -10,4 +10,5 @@ INVARIANT SiblingIndependent
 INVARIANT RootExpected
 INVARIANT NoLeakToRuntime
 PROPERTY Causal
+PROPERTY RunKeepsStatic
 CHECK_DEADLOCK FALSE
